@@ -19,8 +19,10 @@ ROOT = Path(__file__).resolve().parent.parent
 LEAN_DIR = ROOT / 'lean'
 DRIVER_EXE = LEAN_DIR / '.lake' / 'build' / 'bin' / 'driver'
 REPO = Path(os.environ.get('VERIF_REPO', '/repo'))
-EVIDENCE_DIR = ROOT / 'evidence'
-REPLAY_DIR = ROOT / 'replays'
+# (VERIF_OUT redirects what a run writes: used when a check is pointed at a scratch copy of the repository, e.g. a seeded change)
+OUT_ROOT = Path(os.environ['VERIF_OUT']) if os.environ.get('VERIF_OUT') else ROOT
+EVIDENCE_DIR = OUT_ROOT / 'evidence'
+REPLAY_DIR = OUT_ROOT / 'replays'
 KNOWN_FINDINGS = ROOT / 'known_findings.txt'
 ALLOWED_AXIOMS = {'propext', 'Classical.choice', 'Quot.sound'}
 
@@ -216,17 +218,17 @@ def known_findings() -> list[dict]:
 
 
 def write_replay(prop: str, payload: dict) -> str:
-    REPLAY_DIR.mkdir(exist_ok=True)
+    REPLAY_DIR.mkdir(parents=True, exist_ok=True)
     blob = json.dumps(payload, sort_keys=True, default=str)
     h = hashlib.sha256(blob.encode()).hexdigest()[:12]
     path = REPLAY_DIR / f'{prop}-{h}.json'
     path.write_text(json.dumps(payload, indent=1, sort_keys=True, default=str))
-    return str(path.relative_to(ROOT))
+    return str(path.relative_to(ROOT)) if OUT_ROOT == ROOT else str(path)
 
 
 def write_evidence(prop: str, tier: str, coverage: dict, assumptions: list[str], wall_s: float, violations: int,
                    level: str = 'proof') -> None:
-    EVIDENCE_DIR.mkdir(exist_ok=True)
+    EVIDENCE_DIR.mkdir(parents=True, exist_ok=True)
     doc = {
         'property_id': prop,
         'tier': tier,
